@@ -245,7 +245,11 @@ func (g *FuncGen) execCall(instr ssa.Instruction, c *ssa.CallCommon, v ssa.Value
 	}
 	full := callee.String()
 	if g.env.inModule(fnPkgPath(callee)) && len(callee.Blocks) > 0 {
-		// module function without contract: havoc its static effects entirely
+		// module function without contract: small loop-free ones are executed in place
+		if g.inlineCall(callee, args, sig, v) {
+			return
+		}
+		// otherwise havoc its static effects entirely
 		eff := g.env.Effects(callee)
 		g.warnings = append(g.warnings, fmt.Sprintf("%s: callee %s has no contract; its static effects are havocked", g.key, calleeKey(callee)))
 		g.assumptions["uncontracted module callee "+calleeKey(callee)+" (called from "+g.key+"): effects havocked, no precondition checked"] = true
